@@ -10,11 +10,21 @@ pub struct Spy;
 thread_local! {
     static ACTIVE: Cell<bool> = const { Cell::new(false) };
     static FREED: RefCell<Vec<Vec<u8>>> = const { RefCell::new(Vec::new()) };
+    /// addresses of the blocks in FREED (same order) and (address, size) of every block allocated while capturing
+    static FREED_AT: RefCell<Vec<usize>> = const { RefCell::new(Vec::new()) };
+    static ALLOCS: RefCell<Vec<(usize, usize)>> = const { RefCell::new(Vec::new()) };
 }
 
 unsafe impl GlobalAlloc for Spy {
     unsafe fn alloc(&self, layout: Layout) -> *mut u8 {
-        unsafe { System.alloc(layout) }
+        let p = unsafe { System.alloc(layout) };
+        let active = ACTIVE.try_with(|a| a.get()).unwrap_or(false);
+        if active {
+            let _ = ACTIVE.try_with(|a| a.set(false));
+            let _ = ALLOCS.try_with(|f| f.borrow_mut().push((p as usize, layout.size())));
+            let _ = ACTIVE.try_with(|a| a.set(true));
+        }
+        p
     }
     unsafe fn dealloc(&self, ptr: *mut u8, layout: Layout) {
         let active = ACTIVE.try_with(|a| a.get()).unwrap_or(false);
@@ -23,6 +33,7 @@ unsafe impl GlobalAlloc for Spy {
             let _ = ACTIVE.try_with(|a| a.set(false));
             let copy = unsafe { std::slice::from_raw_parts(ptr, layout.size()) }.to_vec();
             let _ = FREED.try_with(|f| f.borrow_mut().push(copy));
+            let _ = FREED_AT.try_with(|f| f.borrow_mut().push(ptr as usize));
             let _ = ACTIVE.try_with(|a| a.set(true));
         }
         unsafe { System.dealloc(ptr, layout) }
@@ -34,9 +45,21 @@ unsafe impl GlobalAlloc for Spy {
 /// run `f` with capturing on; returns the blocks freed meanwhile
 pub fn capture<R>(f: impl FnOnce() -> R) -> (R, Vec<Vec<u8>>) {
     FREED.with(|fr| fr.borrow_mut().clear());
+    FREED_AT.with(|fr| fr.borrow_mut().clear());
+    ALLOCS.with(|fr| fr.borrow_mut().clear());
     ACTIVE.with(|a| a.set(true));
     let r = f();
     ACTIVE.with(|a| a.set(false));
     let blocks = FREED.with(|fr| std::mem::take(&mut *fr.borrow_mut()));
     (r, blocks)
+}
+
+
+/// like `capture`, with addresses: returns (result, blocks allocated meanwhile as (address, size), blocks freed
+/// meanwhile as (address, content just before release))
+pub fn capture_full<R>(f: impl FnOnce() -> R) -> (R, Vec<(usize, usize)>, Vec<(usize, Vec<u8>)>) {
+    let (r, blocks) = capture(f);
+    let at = FREED_AT.with(|fr| std::mem::take(&mut *fr.borrow_mut()));
+    let allocs = ALLOCS.with(|fr| std::mem::take(&mut *fr.borrow_mut()));
+    (r, allocs, at.into_iter().zip(blocks).collect())
 }
